@@ -117,6 +117,28 @@ def c_guards(ctx, args):
     return None
 
 
+def c_C_index(ctx, args):
+    """the 24 indices are 0..23 and nothing else: negative numbers (which Python sequences would wrap around), 24 and beyond, huge numbers are rejected with ValueError;
+    the valid ones are accepted as Python ints and as numpy integers and give the same gate"""
+    idx, = args
+    from pyclifford import circuit as CI_
+    valid = 0 <= idx <= 23
+    try:
+        g = CI_.C(idx, 0)
+        ok = True
+    except ValueError:
+        ok = False
+    except Exception as e:
+        return {'kind': 'oracle', 'where': 'np:C(%d) raised %s instead of ValueError' % (idx, type(e).__name__), 'observed': str(e)[:100], 'expected': 'ValueError' if not valid else 'a gate', 'tags': ['C_index']}
+    if ok != valid:
+        return {'kind': 'oracle', 'where': 'np:C(%d) %s' % (idx, 'was accepted' if ok else 'was rejected'), 'observed': 'accepted' if ok else 'rejected', 'expected': 'a gate' if valid else 'ValueError', 'tags': ['C_index']}
+    if valid:
+        g2 = CI_.C(np.int64(idx), 0)
+        if impl('np').oPL(g.forward_map) != impl('np').oPL(g2.forward_map):
+            return {'kind': 'oracle', 'where': 'np:C(numpy.int64(%d)) differs from C(%d)' % (idx, idx), 'observed': impl('np').oPL(g2.forward_map), 'expected': impl('np').oPL(g.forward_map), 'tags': ['C_index']}
+    return None
+
+
 def c_C_roundtrip(ctx, args):
     """every C(k), at every placement, as gate / circuit / compiled circuit: backward undoes forward and forward undoes backward (all one-site and mixed operands),
     and the gate's backward action is the model's (the inverse table)"""
@@ -162,7 +184,7 @@ def c_C_roundtrip(ctx, args):
     return None
 
 
-CHECKS = {'placed': c_placed, 'C_roundtrip': c_C_roundtrip, 'table_corr': c_table_corr, 'action': c_action, 'C_group': c_C_group, 'guards': c_guards, 'ctor_fresh': __import__('props.C17', fromlist=['c_ctor_fresh']).c_ctor_fresh}
+CHECKS = {'C_index': c_C_index, 'placed': c_placed, 'C_roundtrip': c_C_roundtrip, 'table_corr': c_table_corr, 'action': c_action, 'C_group': c_C_group, 'guards': c_guards, 'ctor_fresh': __import__('props.C17', fromlist=['c_ctor_fresh']).c_ctor_fresh}
 
 
 def run(ctx):
@@ -193,6 +215,8 @@ def run(ctx):
                 do(ctx, 'C_roundtrip', [k, q, N, mode], nontrivial=('Cr', k, N, mode))
     ctx.res.exhaustive = True
     do(ctx, 'C_group', [], nontrivial='C_group')
+    for idx in list(range(-30, 30)) + [39, 47, 48, 100, -100, 255, 256, 2 ** 31, 2 ** 40, -2 ** 40]:
+        do(ctx, 'C_index', [idx], nontrivial=('ci', idx))
     # wrong COUNTS are rejected whatever the labels are -- repeated labels included (every tuple over three labels of every wrong length up to 4)
     for nm, arity in ((0, 1), (1, 1), (2, 1), (3, 1), (4, 1), (5, 2), (107, 1)):
         for L in range(0, 5):
